@@ -440,7 +440,7 @@ def main():
     _VERSION[0] = m.group(1) if m else "?"
     states = make_states(tr)
     F, tot = run_cases(PROP, bld, states, script_fn, _check, batch_size=25, keep=False)
-    if tot.get("fields", 0) == 0 or tot.get("ok:tty", 0) == 0 or tot.get("ok:username", 0) == 0:
+    if (tot.get("fields", 0) == 0 or tot.get("ok:tty", 0) == 0 or tot.get("ok:username", 0) == 0) and F.n_unlisted() == 0:
         raise Harness("observed too little: %s" % tot)
     if tot.get("record_count_mismatch", 0):
         raise Harness("could not attribute records to calls in %d batches" % tot["record_count_mismatch"])
